@@ -8,7 +8,9 @@ ASSUMPTIONS = ["what a frame that passes the gate and names a known model decode
 RULE = ("every length 0..400 with and without the magic (802 datagrams), every length with a truthful length field, the captures followed by "
         "one more byte of every value (newline, NUL, ... included), the captures cut or extended by 1..3 bytes and with each "
         "magic bit flipped, accepted frames with model codes: all known ones, their one-bit neighbours and random ones (thorough: all "
-        "65536 codes on each of the three lengths), random byte strings; a sample through a running bridge; "
+        "65536 codes on each of the three lengths), random byte strings, "
+        "other spellings of a genuine broadcast (hex text, base64, BOM, doubled), unknown-model frames whose name field is not UTF-8; the direct stream "
+        "again with the library's loggers at DEBUG; a sample through a running bridge; "
         "non-trivial = distinct datagrams the Spec judges (outside the gate, or inside with an unknown model code)")
 REQUIREMENT = ("gate = starts with fe f0 and length in {165, 168, 159} (Entry.e_gate_spec); outside the gate: no device, no warning, "
                "no exception; inside with an unknown model code: no device, one 'unknown device' warning, no exception")
@@ -68,6 +70,12 @@ def cases(tier, rnd):
             if rnd.random() < .5: x[133] = 1
             cs.append(bytes(x))
     cs += [world.rand_bytes(rnd, rnd.choice([159, 165, 168])) for _ in range(100)]
+    for c in caps:                         # other spellings of a genuine broadcast: hex text, base64, with a BOM, doubled
+        import base64
+        cs += [c.hex().encode(), c.hex().upper().encode(), b"0x" + c.hex().encode(), base64.b64encode(c), b"\xef\xbb\xbf" + c, c + c, c[::-1]]
+    for L in (159, 165, 168):              # unknown model, name field that is not UTF-8 / is cut inside a character / is all zero
+        for name in (b"\xff" * 32, ("\u05d0" * 16).encode()[:31] + b"\xd7", b"\0" * 32, b"\x80abc" + b"\0" * 28):
+            x = bytearray(world.rand_bytes(rnd, L)); x[0:2] = b"\xfe\xf0"; x[74:76] = b"\xee\xee"; x[42:74] = name; cs.append(bytes(x))
     return cs
 
 
@@ -117,6 +125,10 @@ def run(tier, rnd, out):
     if corpus: run_direct(out, "corpus", [bytes.fromhex(c["d"]) for c in corpus])
     cs = cases(tier, rnd)
     run_direct(out, "direct", cs)
+    import logging
+    lg = logging.getLogger("aioswitcher"); old = lg.level; h = logging.NullHandler(); lg.addHandler(h); lg.setLevel(logging.DEBUG)
+    try: run_direct(out, "direct-with-debug-logging-enabled", cs[::3] if tier == "quick" else cs)
+    finally: lg.setLevel(old); lg.removeHandler(h)
     run_bridge(out, "through-a-running-bridge", rnd.sample(cs, 60 if tier == "quick" else 600))
     out.exhaustive = tier == "thorough"
     out.notes.append("thorough enumerates all 65536 model codes on each accepted length")
